@@ -197,6 +197,41 @@ func (e *Engine) lockHeld(prop string) []*Oblig {
 				}
 			}
 		}
+		// the mutex is locked only inside the type's own package (a caller that takes the read lock and
+		// then calls a method that takes it again deadlocks against a waiting writer), and no function of
+		// the package calls a locking method of the same type while it holds the lock itself
+		{
+			mi := fieldIdx(guard[gnames[0]])
+			locking := map[*ssa.Function]bool{}
+			for _, fn := range e.repoFunctions() {
+				if len(mutexCalls(fn, t, mi)) == 0 {
+					continue
+				}
+				if fn.Pkg == nil || fn.Pkg.Pkg.Path() != pkgPath {
+					problems = append(problems, fmt.Sprintf("%s: %s locks the %s of a %s from outside package %s", e.pos(fn.Blocks[0].Instrs[0]), fn.Name(), guard[gnames[0]], tk[strings.LastIndex(tk, ".")+1:], pkgPath))
+					continue
+				}
+				locking[fn] = true
+			}
+			for fn := range locking {
+				calls := mutexCalls(fn, t, mi)
+				for _, b := range fn.Blocks {
+					for _, ins := range b.Instrs {
+						c, ok := ins.(*ssa.Call)
+						if !ok {
+							continue
+						}
+						callee := c.Call.StaticCallee()
+						if callee == nil || !locking[callee] || len(c.Call.Args) == 0 {
+							continue
+						}
+						if holds(fn, calls, c.Call.Args[0], ins, false) {
+							problems = append(problems, fmt.Sprintf("%s: %s calls %s, which takes the lock, while holding it (sync mutexes are not re-entrant)", e.pos(ins), fn.Name(), callee.Name()))
+						}
+					}
+				}
+			}
+		}
 		// call sites of helpers
 		for h, needW := range helperNeeds {
 			callers := 0
@@ -534,6 +569,21 @@ func waitsFor(f *ssa.Function, goIns *ssa.Go, sig signal, origin ssa.Value, viaL
 						ok = false
 					}
 				}
+			}
+			if ok && sig.kind == "wg" {
+				// the counter must have been raised before the goroutine is started: an Add inside the
+				// goroutine can run after Wait has already seen zero
+				added := false
+				for _, ab := range f.Blocks {
+					for _, ai := range ab.Instrs {
+						if c, isCall := ai.(*ssa.Call); isCall {
+							if callee := c.Call.StaticCallee(); callee != nil && callee.Pkg != nil && callee.Pkg.Pkg.Path() == "sync" && callee.Name() == "Add" && len(c.Call.Args) > 0 && c.Call.Args[0] == origin && instrDominates(ai, goIns) {
+								added = true
+							}
+						}
+					}
+				}
+				ok = added
 			}
 			if ok {
 				return true
